@@ -77,7 +77,7 @@ fn packed_deltas_runs() {
     delta_run_case(0x02); // three 8-bit deltas
 }
 
-//@ harness dsim_entry kind=complete fns=DeltaSetIndexMap::entry,DeltaSetIndexMap::entry_size_impl tier=off
+//@ harness dsim_entry kind=complete fns=DeltaSetIndexMap::entry,DeltaSetIndexMap::entry_size_impl tier=quick
 #[kani::proof]
 #[kani::unwind(6)]
 fn dsim_entry() {
